@@ -1,9 +1,9 @@
 #!/bin/bash
 # adopt + test second-wave seeds: wave.sh C05 C08 ...
 for p in "$@"; do for i in 1 2; do
-  id=$p-$((i+2))
-  if [ -f /tmp/seeds2/$p/patch$i.diff ]; then
-    /venv/bin/python checks/adopt_seed.py $id $p /tmp/seeds2/$p/patch$i.diff /tmp/seeds2/$p/demo$i.py /tmp/seeds2/$p/meta$i.json 2>&1 | tail -1 | cut -c1-160
+  id=$p-$((i+${OFF:-2}))
+  if [ -f ${SEEDDIR:-/tmp/seeds2}/$p/patch$i.diff ]; then
+    /venv/bin/python checks/adopt_seed.py $id $p ${SEEDDIR:-/tmp/seeds2}/$p/patch$i.diff ${SEEDDIR:-/tmp/seeds2}/$p/demo$i.py ${SEEDDIR:-/tmp/seeds2}/$p/meta$i.json 2>&1 | tail -1 | cut -c1-160
     if [ -f seeded/$id/patch.diff ]; then /venv/bin/python checks/mutant.py seeded/$id/patch.diff $p | grep -v "KNOWN\|Applied" | cut -c1-220 | head -5; fi
   fi
 done; done
